@@ -119,13 +119,17 @@ func (s *rtSock) LocalAddr() net.Addr { return &net.UDPAddr{IP: net.IPv4(192, 16
 func runRouterRT(t *testing.T, line string) string {
 	parts := strings.SplitN(line, ":", 2)
 	head := strings.Fields(parts[0])
-	if len(head) != 5 {
+	if len(head) != 5 && len(head) != 6 {
 		return "bad-script"
 	}
 	pause, _ := strconv.Atoi(head[1])
 	senders, _ := strconv.Atoi(head[2])
 	burst, _ := strconv.Atoi(head[3])
 	gap, _ := strconv.Atoi(head[4])
+	startMs := 0 // the senders' first Send: indications before it find the client idle
+	if len(head) == 6 {
+		startMs, _ = strconv.Atoi(head[5])
+	}
 	type busy struct {
 		at, wait, ctrl int
 		lost           bool // a routing-lost indication (wait = count) instead of a busy one
@@ -157,6 +161,9 @@ func runRouterRT(t *testing.T, line string) string {
 		wg.Add(1)
 		go func(s int) {
 			defer wg.Done()
+			if d := time.Until(sock.start.Add(time.Duration(startMs) * time.Millisecond)); d > 0 {
+				time.Sleep(d)
+			}
 			for k := 0; k < burst; k++ {
 				atomic.AddInt64(&inside, 1)
 				r.Send(payload(s*1000+k+1, true))
